@@ -14,7 +14,7 @@ import metric_learn as ml
 
 PID = 'C09'
 LEVEL = 'exploration'
-RULE = ('Covariance: datasets incl. a singular one (duplicated feature); RCA: chunk layouts {alphabet chunks with -1, every '
+RULE = ('Covariance: datasets incl. a singular one (duplicated feature); RCA: chunk layouts {alphabet chunks with -1, the same with non-contiguous chunk ids, every '
         'point chunked, large unbalanced chunks} x n_components in None,1..d; LFDA: layouts {as given, a class smaller than '
         'k+1 listed first / last, renamed classes, a singleton class, identical rows inside a class} x k in 1..d-1 and None x embedding_type x n_components in None,1..d; '
         'signature = (learner, dataset, layout, options); non-trivial = every case (distinct data / options)')
@@ -33,7 +33,7 @@ def cases(tier, seed):
     names = ['S2', 'S3', 'S3u', 'S5', 'R'] if tier == 'quick' else data.THOROUGH
     for dsn in names:
         out.append(('Covariance/%s' % dsn, ('cov', dsn, seed)))
-        for lay in ('alphabet', 'all_chunked', 'big_chunks'):
+        for lay in ('alphabet', 'all_chunked', 'big_chunks', 'gapped_ids'):
             out.append(('RCA/%s/%s' % (dsn, lay), ('rca', dsn, lay, seed)))
         for lay in ('given', 'small_first', 'small_last', 'renamed', 'singleton', 'duplicates'):
             out.append(('LFDA/%s/%s' % (dsn, lay), ('lfda', dsn, lay, seed)))
@@ -165,6 +165,9 @@ def run_case(spec):
         n, d = X.shape
         if lay == 'alphabet':
             ch = ds.chunks.copy()
+        elif lay == 'gapped_ids':
+            ch = ds.chunks.copy()                 # chunklet names that are neither contiguous nor start at 0
+            ch[ch >= 0] = 2 * ch[ch >= 0] + 3
         elif lay == 'all_chunked':
             ch = np.arange(n) // 2
             ch[-1] = ch[-2]                      # odd n: last chunk gets three points
